@@ -1,10 +1,11 @@
 #!/bin/bash
-# tools/trymut.sh <patch.diff> <PROP> [check args...] — apply a seeded change to /repo, run the check, undo.
-patch="$1"; prop="$2"; shift 2
-cd /repo || exit 9
-if [ -n "$(git status --porcelain)" ]; then echo "refusing: /repo has uncommitted changes (they would be discarded)"; exit 9; fi
-if ! git apply --check "$patch" 2>/dev/null; then echo "patch does not apply: $patch"; exit 9; fi
-git apply "$patch"
-trap 'git -C /repo checkout -- . ' EXIT
-cd /verif && timeout 1500 ./check "$prop" --no-evidence "$@" 2>&1 | grep -v "^  harness" | tail -6
+# tools/trymut.sh <patch.diff> <PROP> [check args...] — run a check against a seeded change.
+# The change is applied to a scratch copy of /repo (never to /repo itself); the check reads it through VERIF_REPO.
+patch="$(readlink -f "$1")"; prop="$2"; shift 2
+S=$(mktemp -d /tmp/trymut.XXXXXX)
+trap 'rm -rf "$S"' EXIT
+rsync -a /repo/ "$S/"
+if ! git -C "$S" apply --check "$patch" 2>/dev/null; then echo "patch does not apply: $patch"; exit 9; fi
+git -C "$S" apply "$patch"
+cd /verif && VERIF_REPO="$S" timeout 1500 ./check "$prop" --no-evidence "$@" 2>&1 | grep -v "^  harness" | tail -6
 echo "exit=${PIPESTATUS[0]}"
